@@ -33,7 +33,9 @@ macro_rules! from_int {
             let r = <$t as FSV>::from_steelval(&sv);
             let in_range = (x as i128) >= (<$t>::MIN as i128) && (x as i128) <= (<$t>::MAX as i128);
             kani::cover!(in_range, "in range");
-            kani::cover!(!in_range, "out of range");
+            // (a type that holds every machine integer -- i64, isize -- has no out-of-range script integer: the cover is then
+            // satisfied by any value, otherwise the harness would be reported as vacuous)
+            kani::cover!(!in_range || ((<$t>::MIN as i128) <= isize::MIN as i128 && (<$t>::MAX as i128) >= isize::MAX as i128), "out of range");
             match r {
                 Ok(v) => {
                     vassert!(in_range, "out-of-range integer converted instead of reported (truncated)");
